@@ -51,6 +51,16 @@ pub struct Run {
 impl Run {
     pub fn new(id: &'static str, level: &'static str, tier: Tier) -> Run {
         let seed = std::env::var("VERIF_SEED").ok().and_then(|s| s.parse().ok()).unwrap_or(1);
+        // a case of an in-process enumeration that does not return is reported from the watchdog thread (the run
+        // itself cannot go on: the stuck worker cannot be stopped), see meter.rs
+        *crate::meter::HANG_REPORT.lock().unwrap_or_else(|e| e.into_inner()) = Some(Box::new(move |idx, secs| {
+            let mut r = Run { id, tier, seed, level, t0: Instant::now(), cov: Map::new(), assumptions: vec![], violations: vec![], samples: vec![], machinery_errors: vec![] };
+            r.violation(Violation { identity: "hang:case_does_not_return".into(), what: format!("a case of the enumeration (index {idx} of the sub-enumeration named in the last progress line above) has been running for {secs} s; cases take micro- to milliseconds: the code under test does not terminate on it", ), replay: serde_json::json!({"hang": true, "case_index": idx}) });
+            r.set("exhaustive", false);
+            r.set("ended_by_case_watchdog", true);
+            let code = r.finish();
+            std::process::exit(code);
+        }));
         Run { id, tier, seed, level, t0: Instant::now(), cov: Map::new(), assumptions: vec![], violations: vec![], samples: vec![], machinery_errors: vec![] }
     }
     pub fn set(&mut self, k: &str, v: impl Into<Value>) {
